@@ -88,7 +88,7 @@ def _dotted(n: ast.AST) -> str | None:
     return None
 
 
-LEAN_T = {'int': 'Int', 'bool': 'Bool'}
+LEAN_T = {'int': 'Int', 'bool': 'Bool', 'err': 'Option (Int × Int)'}  # err: a NotifyError(code, subcode, …) or None
 NONE_VAL = {'bool': 'false', 'int': '0', 'none': '()', 'int*int': '(0, 0)'}
 RET_T = {'bool': 'Bool', 'int': 'Int', 'none': 'Unit', 'int*int': '(Int × Int)'}
 
@@ -102,6 +102,8 @@ class _Tr:
         self.inlining: list[str] = []
         self.owner = owner  # the class of the method: `self.<helper>(…)` is looked up there
         self.local_defs = local_defs or {}  # functions defined inside the translated one (closures)
+        self.aliases: dict[str, ast.expr] = {}  # object-valued locals (`sent_capa = self.sent_open.capabilities`): expanded where they are read
+        self.resume: list[tuple[ast.expr, list[ast.stmt]]] = []  # helpers inlined as statements: (targets, the caller's continuation)
 
     # -- helpers of the translated function: inlined, so that extracting one is not a change ----------------
     def norm(self, e: ast.AST) -> ast.AST:
@@ -109,9 +111,13 @@ class _Tr:
         their value (`header[:MARKER_END]` with `MARKER_END = 16` is `header[:16]`): what the opaque inputs and the
         constant expressions of a spec are matched on."""
         globs = self.globs
+        aliases = self.aliases
+        import copy as _copy
 
         class N(ast.NodeTransformer):
             def visit_Name(self, n: ast.Name) -> ast.AST:
+                if isinstance(n.ctx, ast.Load) and n.id in aliases:
+                    return _copy.deepcopy(aliases[n.id])
                 if isinstance(n.ctx, ast.Load) and n.id in globs:
                     g = globs[n.id]
                     if type(g) is int:
@@ -132,6 +138,8 @@ class _Tr:
         node: Any = None
         name = ''
         is_method = False
+        if isinstance(f, ast.Name) and (f.id in self.spec.pure_calls or f.id in self.spec.effect_calls):
+            return None
         if isinstance(f, ast.Name):
             name = f.id
             if name in self.local_defs:
@@ -158,10 +166,12 @@ class _Tr:
             return None
         return name, node, is_method
 
-    def inline_call(self, call: ast.Call, env: dict[str, str]) -> tuple[str, str] | None:
-        """A call to a helper as an expression: its parameters are bound to the arguments (`let`), its body is
-        translated in place as a value — every path must end in `return <value>`, it may read the fields of `self`
-        and the opaque inputs, it may not assign a field nor raise.  None: not a helper this can do."""
+    def helper_parts(self, call: ast.Call) -> tuple[str, list[ast.stmt]] | None:
+        """(name, body) of the helper a call refers to, the parameters replaced by the argument expressions: the
+        arguments of the kernels are names and attribute paths (objects looked at through what is read off them),
+        so putting them in place is what the call means, and what the body reads of the outside world is then
+        recognised by its text as if it had been written at the call.  An argument that is anything else makes the
+        call not a helper this can do (None)."""
         found = self.callee_def(call)
         if found is None or call.keywords:
             return None
@@ -173,66 +183,52 @@ class _Tr:
             params = params[1:]
         if len(call.args) != len(params):
             return None
-        body = [b for b in node.body if not (isinstance(b, ast.Expr) and isinstance(b.value, ast.Constant) and isinstance(b.value.value, str))]
-        if len(body) == 1 and isinstance(body[0], ast.Return) and body[0].value is not None:
-            # one expression: the arguments are put in place of the parameters (so that what the expression reads
-            # of the outside world is recognised by its text, as if it had been written at the call)
-            import copy
+        for a in call.args:
+            if not (_dotted(a) is not None or isinstance(a, ast.Constant)):
+                return None
+        import copy
 
-            sub = dict(zip(params, call.args))
+        sub = dict(zip(params, call.args))
+        stored = {n.id for st in node.body for n in ast.walk(st) if isinstance(n, ast.Name) and isinstance(n.ctx, ast.Store)}
+        if stored & set(params):
+            return None  # a parameter that is assigned in the body is a local: not handled
 
-            class S(ast.NodeTransformer):
-                def visit_Name(self, n: ast.Name) -> ast.AST:
-                    if isinstance(n.ctx, ast.Load) and n.id in sub:
-                        return copy.deepcopy(sub[n.id])
-                    return n
+        class S(ast.NodeTransformer):
+            def visit_Name(self, n: ast.Name) -> ast.AST:
+                if isinstance(n.ctx, ast.Load) and n.id in sub:
+                    return copy.deepcopy(sub[n.id])
+                return n
 
-            inner = ast.fix_missing_locations(S().visit(copy.deepcopy(body[0].value)))
-            self.inlining.append(name)
-            try:
-                return self.expr(inner, env)
-            finally:
-                self.inlining.pop()
-        binds = []
-        env2: dict[str, str] = {}
-        for pn, a in zip(params, call.args):
-            v, t = self.expr(a, env)
-            binds.append(f'let v_{pn} : {LEAN_T[t]} := {v}')
-            env2[pn] = t
+        body = [ast.fix_missing_locations(S().visit(copy.deepcopy(b))) for b in node.body
+                if not (isinstance(b, ast.Expr) and isinstance(b.value, ast.Constant) and isinstance(b.value.value, str))]
+        return name, body
+
+    def inline_call(self, call: ast.Call, env: dict[str, str]) -> tuple[str, str] | None:
+        """A call to a helper as an expression: its body is translated in place as a value — every path must end in
+        `return <value>`, it may read the fields of `self` and the inputs, it may not assign a field nor raise."""
+        parts = self.helper_parts(call)
+        if parts is None:
+            return None
+        name, body = parts
         self.inlining.append(name)
         saved = self.spec
         try:
+            if len(body) == 1 and isinstance(body[0], ast.Return) and body[0].value is not None:
+                return self.expr(body[0].value, env)
+            import dataclasses
+
             last: Exception | None = None
             for rt in ('bool', 'int'):
-                import dataclasses
-
                 self.spec = dataclasses.replace(saved, pure=True, ret=rt, params={}, attr_params=dict(saved.attr_params), slice_fields=False, tuple_result=None, refusal_returns=False, return_map={}, refusal_calls=())
                 try:
-                    term = self.block(body, [], env2, 0)
-                    return '(' + '; '.join(binds + [term.strip().replace('\n', ' ')]) + ')', rt
+                    term = self.block(body, [], dict(env), 0)
+                    return '(' + ' '.join(x.strip() for x in term.splitlines()) + ')', rt
                 except Unsupported as e:
                     last = e
             raise Unsupported(f'helper {name}: {last}')
         finally:
             self.spec = saved
             self.inlining.pop()
-
-    def helper_body(self, name: str) -> ast.expr | None:
-        """`name` is a module-level function without parameters whose body is `return <expr>` (after an
-        optional docstring): the expression, to be translated in place of the call."""
-        f = self.globs.get(name)
-        if not inspect.isfunction(f) or name in self.inlining:
-            return None
-        try:
-            fd = ast.parse(textwrap.dedent(inspect.getsource(f))).body[0]
-        except (OSError, TypeError, SyntaxError):
-            return None
-        if not isinstance(fd, ast.FunctionDef) or fd.args.args or fd.args.kwonlyargs or fd.args.vararg or fd.args.kwarg:
-            return None
-        body = [b for b in fd.body if not (isinstance(b, ast.Expr) and isinstance(b.value, ast.Constant) and isinstance(b.value.value, str))]
-        if len(body) == 1 and isinstance(body[0], ast.Return) and body[0].value is not None:
-            return body[0].value
-        return None
 
     # -- expressions: returns (lean, type) ---------------------------------------------------------
     def expr(self, e: ast.AST, env: dict[str, str]) -> tuple[str, str]:
@@ -264,6 +260,18 @@ class _Tr:
                     raise Unsupported(f'opaque input {name} is not declared for the caller of {e.func.id}')
                 args.append(f'x_{name}')
             return '(' + ' '.join([callee.name] + args) + ')', callee.ret
+        if isinstance(e, ast.Call) and _dotted(e.func) == 'NotifyError' and len(e.args) >= 2:
+            (a, ta), (b, tb) = self.expr(e.args[0], env), self.expr(e.args[1], env)
+            if ta != 'int' or tb != 'int':
+                raise Unsupported('NotifyError code/subcode not int')
+            return f'(some ({a}, {b}) : Option (Int × Int))', 'err'
+        if isinstance(e, ast.Constant) and e.value is None:
+            return '(none : Option (Int × Int))', 'err'
+        if isinstance(e, ast.Compare) and len(e.ops) == 1 and isinstance(e.ops[0], (ast.Is, ast.IsNot)) and isinstance(e.comparators[0], ast.Constant) and e.comparators[0].value is None:
+            v, t = self.expr(e.left, env)
+            if t != 'err':
+                raise Unsupported(f'comparison with None of a {t}: {ast.unparse(e)}')
+            return (f'({v}).isNone' if isinstance(e.ops[0], ast.Is) else f'({v}).isSome'), 'bool'
         if isinstance(e, ast.Constant):
             if isinstance(e.value, bool):
                 return ('true' if e.value else 'false'), 'bool'
@@ -294,21 +302,6 @@ class _Tr:
                 if key in sp.attr_params:
                     return f'p_{e.value.id}_{e.attr}', sp.attr_params[key]
             raise Unsupported(f'name {d}')
-        if isinstance(e, ast.Call) and isinstance(e.func, ast.Name) and not e.args and not e.keywords and e.func.id not in env:
-            inner = self.helper_body(e.func.id)
-            if inner is not None:
-                self.inlining.append(e.func.id)
-                try:
-                    return self.expr(inner, {})
-                finally:
-                    self.inlining.pop()
-        if isinstance(e, ast.Call) and isinstance(e.func, ast.Name) and e.func.id in ('min', 'max') and len(e.args) == 2 and not e.keywords and e.func.id not in env:
-            (a, ta), (b, tb) = self.expr(e.args[0], env), self.expr(e.args[1], env)
-            if ta != 'int' or tb != 'int':
-                raise Unsupported(f'{e.func.id} of non-int: {ast.unparse(e)}')
-            return f'({e.func.id} {a} {b})', 'int'
-        if isinstance(e, ast.Call) and _dotted(e.func) in sp.identity_calls and len(e.args) == 1 and not e.keywords:
-            return self.expr(e.args[0], env)
         if isinstance(e, ast.Call):
             got = self.inline_call(e, env)
             if got is not None:
@@ -381,6 +374,8 @@ class _Tr:
         raise Unsupported(f'expression {ast.unparse(e)}')
 
     def truth(self, v: str, t: str) -> str:
+        if t == 'err':
+            return f'({v}).isSome'
         return v if t == 'bool' else f'({v} != 0)'
 
     # -- statements --------------------------------------------------------------------------------
@@ -397,6 +392,8 @@ class _Tr:
         """Lean term for `stmts` followed by `rest` (the continuation, already a statement list)."""
         pad = '  ' * ind
         todo = list(stmts) + list(rest)
+        if not todo and self.resume:
+            raise Unsupported(f'{self.fname}: a helper whose result is assigned can fall off its end')
         if not todo:
             return pad + self.ret(None)
         s, tail = todo[0], todo[1:]
@@ -411,6 +408,16 @@ class _Tr:
             return self.block(tail, [], env, ind)
         if isinstance(s, ast.Assert):
             return self.block(tail, [], env, ind)  # an assertion that holds computes nothing
+        if isinstance(s, ast.Return) and self.resume:
+            tgt, ktail = self.resume[-1]
+            if s.value is None:
+                raise Unsupported(f'{self.fname}: a helper whose result is assigned returns nothing')
+            saved_resume, saved_inl = self.resume, self.inlining
+            self.resume, self.inlining = self.resume[:-1], self.inlining[:-1]
+            try:
+                return self.block([ast.Assign(targets=[tgt], value=s.value, lineno=0, col_offset=0)] + list(ktail), [], env, ind)
+            finally:
+                self.resume, self.inlining = saved_resume, saved_inl
         if isinstance(s, ast.Return):
             if s.value is None:
                 return pad + self.ret(None)
@@ -442,6 +449,13 @@ class _Tr:
                     if ta != 'int' or tb != 'int':
                         raise Unsupported('NotifyError code/subcode not int')
                     return pad + f'PyRes.raise {a} {b}'
+                try:
+                    ev, et = self.expr(err, env)
+                except Unsupported:
+                    ev, et = '', ''
+                if et == 'err':
+                    (a, ta), (b, tb) = self.expr(s.value.elts[i], env), self.expr(s.value.elts[j], env)
+                    return pad + f'match {ev} with\n{pad}| some (c, s) => PyRes.raise c s\n{pad}| none => ' + self.ret(f'({a}, {b})')
                 raise Unsupported(f'{self.fname}: error element of the result tuple: {ast.unparse(err)[:60]}')
             if isinstance(s.value, ast.Tuple) and sp.ret == 'int*int' and len(s.value.elts) == 2:
                 (a, ta), (b, tb) = (self.expr(x, env) for x in s.value.elts)
@@ -501,7 +515,57 @@ class _Tr:
                 if not isinstance(tgt, ast.Name):
                     raise Unsupported(f'assignment {ast.unparse(s)}')
                 return self.bind(self.self_call(s.value), s.value, tgt.id, tail, env, ind)
-            v, t = self.expr(s.value, env)
+            # a helper whose result is assigned: its body runs here, every `return e` of it becomes `<targets> = e`
+            # followed by what follows the call (the continuation is duplicated like that of an `if`)
+            if isinstance(s.value, ast.Call) and not (ast.unparse(self.norm(s.value)) in sp.opaque or ast.unparse(self.norm(s.value)) in sp.const_exprs):
+                parts = self.helper_parts(s.value)
+                if parts is not None and not (len(parts[1]) == 1 and isinstance(parts[1][0], ast.Return)) or (parts is not None and isinstance(tgt, ast.Tuple)):
+                    name, body = parts
+                    helper_locals = {n.id for st in body for n in ast.walk(st) if isinstance(n, ast.Name) and isinstance(n.ctx, ast.Store)}
+                    tnames = {n.id for n in ast.walk(tgt) if isinstance(n, ast.Name)}
+                    later = {n.id for st in tail for n in ast.walk(st) if isinstance(n, ast.Name) and isinstance(n.ctx, ast.Load)}
+                    clash = (helper_locals - tnames) & (later | set(env))
+                    if clash:
+                        raise Unsupported(f'helper {name} assigns {sorted(clash)}, which the caller uses too: not inlined')
+                    self.inlining.append(name)
+                    self.resume.append((tgt, tail))
+                    try:
+                        return self.block(body, [], env, ind)
+                    finally:
+                        self.resume.pop()
+                        self.inlining.pop()
+            if isinstance(tgt, ast.Tuple):
+                val = s.value
+                if isinstance(val, ast.Call):
+                    parts = self.helper_parts(val)
+                    if parts is not None and len(parts[1]) == 1 and isinstance(parts[1][0], ast.Return) and isinstance(parts[1][0].value, ast.Tuple):
+                        val = parts[1][0].value
+                if not (isinstance(val, ast.Tuple) and len(val.elts) == len(tgt.elts) and all(isinstance(x, ast.Name) for x in tgt.elts)):
+                    raise Unsupported(f'assignment {ast.unparse(s)[:80]}')
+                # all the values first, then the names (Python evaluates the right-hand side before it assigns)
+                self.tmp += 1
+                k = self.tmp
+                out, env2 = '', dict(env)
+                vals = [self.expr(x, env) for x in val.elts]
+                for i, (v, t) in enumerate(vals):
+                    out += pad + f'let t{k}_{i} : {LEAN_T[t]} := {v}\n'
+                for i, (x, (v, t)) in enumerate(zip(tgt.elts, vals)):
+                    out += pad + f'let v_{x.id} : {LEAN_T[t]} := t{k}_{i}\n'
+                    env2[x.id] = t
+                return out + self.block(tail, [], env2, ind)
+            try:
+                v, t = self.expr(s.value, env)
+            except Unsupported:
+                # an object-valued local (`sent_capa = self.sent_open.capabilities`): nothing to compute; where it is
+                # read, what it stands for is put in its place (so that the inputs are recognised whatever they are
+                # called locally, and so that a local that now stands for something else is a change)
+                if isinstance(tgt, ast.Name) and _dotted(s.value) is not None and tgt.id not in env and tgt.id not in self.aliases:
+                    self.aliases[tgt.id] = self.norm(s.value)
+                    try:
+                        return self.block(tail, [], env, ind)
+                    finally:
+                        del self.aliases[tgt.id]
+                raise
             if isinstance(tgt, ast.Name):
                 env2 = dict(env)
                 env2[tgt.id] = t
@@ -618,8 +682,9 @@ def _stores(s: ast.AST) -> set[str]:
             b = n.func.value  # x.method(...): x may be changed by it
             if isinstance(b, ast.Attribute) and isinstance(b.value, ast.Name) and b.value.id == 'self':
                 out.add('self.' + b.attr)
-            elif isinstance(b, ast.Name):
-                out.add(b.id)
+            # (a method called on a LOCAL is not counted: the locals the slice cares about are numbers, which no
+            #  method changes, and objects that are only read through the declared inputs — assumed not to be
+            #  modified inside the kernel, see the trusted base)
     return out
 
 
@@ -700,6 +765,10 @@ def translate(fn: Any, spec: Spec, lean_name: str | None = None, nested: str | N
     if '.' in qn and '<locals>' not in qn:
         owner = getattr(inspect.getmodule(fn), qn.split('.')[0], None)
     local_defs = {n.name: n for n in fdef.body if isinstance(n, ast.FunctionDef)}
+    if nested is not None:  # the other closures of the enclosing function are helpers too
+        for n in ast.walk(tree.body[0]):
+            if isinstance(n, ast.FunctionDef) and n is not fdef and n is not tree.body[0]:
+                local_defs.setdefault(n.name, n)
     fdef.body = [n for n in fdef.body if not isinstance(n, ast.FunctionDef)]
     tr = _Tr(spec, fdef.name, getattr(fn, '__globals__', None), owner, local_defs)
     left_out: list[str] = []
